@@ -89,7 +89,9 @@ fn real_fn(real: f64, q: Q) -> R {
     if real.abs() >= 9007199254740992.0 {
         return RV::Unspec("U3: real result of magnitude >= 2^53");
     }
-    let tol = 1.0 + 1e-9 * real.abs().max(1.0);
+    // "within 1 of the real result": the oracle itself is a double-precision function value (< 1 ulp from
+    // the real result for the host libm), and so is whatever the subject rounds, hence 1 + 3 ulp
+    let tol = 1.0 + 3.0 * real.abs() * f64::EPSILON;
     match q {
         Q::Exact => RV::Val(real.round() as i64, Q::Near(real, tol)),
         _ => RV::Val(real.round() as i64, Q::Skip),
